@@ -1110,11 +1110,11 @@ func indexerCase(run *core.Run, name string) {
 	}
 	// events by address / chain id / height
 	type evr struct {
-		ref     string
-		addr    []byte
-		chain   uint64
-		height  uint64
-		index   int
+		ref    string
+		addr   []byte
+		chain  uint64
+		height uint64
+		index  int
 	}
 	var evs []evr
 	seenEv := map[[2]uint64]bool{}
